@@ -344,3 +344,13 @@ def _register_shared_round9():
 
 
 # _register_shared_round9() is called by the driver after this module is fully imported (no import cycles)
+
+
+# "weights and redshifts drawn jointly (same source row)" also holds for what is read back from the cache of a random catalog: the
+# fields are read under the names they were written with (C02 unit on read_patch_data)
+def _register_shared_round10():
+    from . import C02 as _C02
+    unit(P, "read_patch_data", fuc=["yaw.catalog.patch:read_patch_data", "yaw.datachunk:DataChunkInfo.get_list"], cases=_C02.FIELDSETS)(_C02.u_read)
+
+
+# _register_shared_round10() is called by the driver after this module is fully imported (no import cycles)
